@@ -1,6 +1,7 @@
 /* C04 native driver: the real HydroDensitySubGrid::update_conserved_variables on a one-cell subgrid (private members
  * reached with -fno-access-control): the positivity safeguard only intervenes below zero, pending increments are
  * consumed, results are never negative. */
+#include "HydroBoundary.hpp"
 #include "HydroDensitySubGrid.hpp"
 #include "cm_replay.hpp"
 #include <cmath>
@@ -57,9 +58,44 @@ static int fidelity(uint64_t seed, long n) {
   return 0;
 }
 
+/* reflecting wall: the face states reconstructed on both sides of the wall from the real ghost state are mirror images */
+static int reflective_scenarios(void) {
+  int bad = 0;
+  ReflectiveHydroBoundary wall;
+  HydroVariables cell;
+  for (int j = 0; j < 5; ++j) {
+    cell.primitives(j) = 1.5 + 0.25 * j;
+    cell.primitive_gradients(j) = CoordinateVector<>(0.125 * (j + 1), -0.375 * (j + 2), 0.0625 * (j + 3));
+  }
+  const double d = 0.5;
+  for (int i = 0; i < 3 && !bad; ++i) for (int o = -1; o <= 1 && !bad; o += 2) {
+    const HydroVariables ghost = wall.get_right_state_flux_variables(i, o, CoordinateVector<>(0.), cell);
+    for (int j = 0; j < 5; ++j) {
+      const double qL = cell.primitives(j) + cell.primitive_gradients(j)[i] * d;
+      const double qR = ghost.primitives(j) - ghost.primitive_gradients(j)[i] * d;
+      const bool ok = (j == 1 + i) ? (qR == -qL) : (qR == qL);
+      if (!ok) {
+        std::printf("REPRODUCED (native boundary search): real ReflectiveHydroBoundary::get_right_state_flux_variables(i=%d): primitive %d reconstructed at the wall is %a on the cell side and %a on the ghost side - not mirror images\n", i, j, qL, qR);
+        bad = 1;
+      }
+    }
+    const HydroVariables ghost2 = wall.get_right_state_gradient_variables(i, o, CoordinateVector<>(0.), cell);
+    for (int j = 0; j < 5; ++j) {
+      const bool ok = (j == 1 + i) ? (ghost2.primitives(j) == -cell.primitives(j)) : (ghost2.primitives(j) == cell.primitives(j));
+      if (!ok) { std::printf("REPRODUCED (native boundary search): real ReflectiveHydroBoundary::get_right_state_gradient_variables(i=%d): primitive %d is not mirrored\n", i, j); bad = 1; }
+    }
+  }
+  return bad;
+}
+
 static int replay(const char *path) {
   CMInputs in;
   if (!in.load(path)) return 2;
+  if (in.job.find("reflective") != std::string::npos) {
+    int b = reflective_scenarios();
+    if (!b) std::printf("NOT-REPRODUCED\n");
+    return b;
+  }
   int bad = scenarios(true, "native boundary search");
   if (!bad) std::printf("NOT-REPRODUCED\n");
   return bad;
